@@ -1,5 +1,5 @@
 from pyvc.contracts import contract
-from .common import type_options, type_bads_state, inv_bads, inv_c04, INC, MIN, LOGMAP, DET, LOG_GROWS
+from .common import type_options, type_bads_state, inv_bads, inv_c04, INC, MIN, LOGMAP, DET, LOG_GROWS, inv_c02, FEAS, LOGFEAS
 from .bads_optimize import c10
 from .function_logger import wf_at
 
@@ -14,6 +14,10 @@ def _(c):
     c.ints("ghost.n_calls")
     c.arr("self.function_logger.X_flag", 1, [None], "bool")
     c.arr("u_poll", 2, [None, "self.D"], nonnull=False)
+    c.arr("B", 2, [None, "self.D"], nonnull=False)
+    c.arr("gp.temporary_data['poll_scale']", 1, ["self.D"])
+    c.req("gp_poll_scale_positive", "forall(self.D, lambda j: gp.temporary_data['poll_scale'][j] > 0)", props=["C14"])
+    c.req("meshes_positive", "self.optim_state['search_mesh_size'] > 0 and self.optim_state['mesh_size'] > 0")
     c.let(nY="count_true(self.function_logger.X_flag)", msi="self.mesh_size_integer", cap='self.options["max_poll_grid_number"]',
           ssi='self.optim_state["search_size_integer"]', fc="self.function_logger.func_count",
           B_='self.options["max_fun_evals"]', it='self.optim_state["iter"]',
@@ -29,6 +33,7 @@ def _(c):
         "good_iff": "iff(certain_good_poll, poll_best_improvement > self.sufficient_improvement)",
         "best_is_gap": "poll_best_improvement == self.fval - f_poll_best and poll_best_improvement >= 0",
         "count": "poll_count >= 0",
+        "basis_and_set_together": "isnone(B) == isnone(u_poll) and implies(not isnone(B), rows(B) >= 2)",
         "calls_counted": "ghost.n_calls - old(ghost.n_calls) == fc - old(fc) and nY >= old(nY)",
         "no_failure": "not truthy(ghost.target_raised)",
         "logger_wf": wf_at("self.function_logger"),
@@ -37,6 +42,10 @@ def _(c):
         "c04_best_minimal": "implies(" + DET + ", " + MIN("y_poll_best") + ")",
         "c04_log_maps_back": LOGMAP,
         "c04_log_grows": LOG_GROWS,
+        # C02: every remaining poll candidate, the best polled point and every logged point are feasible
+        "c02_poll_set_feasible": "implies(not isnone(u_poll), forall(rows(u_poll), lambda k: feasx(invt(row(u_poll, k)))))",
+        "c02_best_feasible": FEAS("u_poll_best"),
+        "c02_log_feasible": LOGFEAS,
         "c04_state_kept": "self.fval == old(self.fval) and self.yval == old(self.yval) and self.fsd == old(self.fsd) and "
                           "self.optim_state['uncertainty_handling_level'] == old(self.optim_state['uncertainty_handling_level']) and "
                           "truthy(self.function_logger.he_noise_flag) == truthy(old(self.function_logger.he_noise_flag))",
@@ -63,6 +72,7 @@ def _(c):
     c.req("u_is_best", "implies(" + DET + ", pteq(pt(self.u), pt(self.u_best)))", props=["C04", "C19"])
     c.ens("u_is_best", "implies(" + DET + ", pteq(pt(self.u), pt(self.u_best)))", props=["C04", "C19"])
     inv_c04(c)
+    inv_c02(c)
     c.ens("level_kept", "self.optim_state['uncertainty_handling_level'] == old(self.optim_state['uncertainty_handling_level'])")
     c10(c)
     c.ens("controller_untouched", "self.optim_state['search_count'] == old(self.optim_state['search_count']) and "
